@@ -7,11 +7,13 @@ sys.path.insert(0, os.path.dirname(os.path.dirname(os.path.abspath(__file__))))
 ROOT = os.path.dirname(os.path.dirname(os.path.abspath(__file__)))
 props = [json.loads(l) for l in open(os.path.join(ROOT, "properties.jsonl"))]
 PENDING = {}
+# only modules reviewed and silent on the unchanged tree are claimed
+CLAIMED = set(open(os.path.join(ROOT, "tools", "claimed.txt")).read().split())
 checks, na = [], []
 for p in props:
     pid = p["id"]
     path = os.path.join(ROOT, "vf", "checks", pid.lower() + ".py")
-    if not os.path.exists(path):
+    if not os.path.exists(path) or pid not in CLAIMED:
         na.append({"property_id": pid, "reason": PENDING.get(pid, "check not built yet (design in DESIGN.md section 3); not claimed until its module exists and is silent on the unchanged tree")})
         continue
     m = importlib.import_module("vf.checks." + pid.lower())
